@@ -120,6 +120,7 @@ func runFillIn(c *Ctx) {
 	}
 	fname := shortName(fn)
 	blankIsInvalid(c, dec)
+	timeRejections(c, dec)
 	type side struct {
 		call     *ssa.Call
 		val, flg ssa.Value
@@ -346,6 +347,169 @@ func blankIsInvalid(c *Ctx, dec *ssa.Function) {
 		}
 	}
 	c.Check(bad == "" && n > 0, "FILL", shortName(dec), "a blank cell is not a valid time", p.pos(dec.Pos()), fmt.Sprintf("all %d returns that can answer `valid` lie behind the false edge of an emptiness test of the cell", n), bad+": a blank arrival or departure counts as given (as 0s), and the other side is not copied into it")
+}
+
+// timeRejections: a cell is "not a valid time" for what it is made of -- it is empty, it has a character that is not a
+// digit, a colon or white space, or it has more than three pieces -- and for nothing else: GTFS writes hours with one,
+// two or three digits, so no count of digits decides. Every return of the decoder that answers `not valid` is
+// controlled only by tests of the cell, of the current character, or of the index of the piece being filled.
+func timeRejections(c *Ctx, dec *ssa.Function) {
+	p := c.P
+	if len(dec.Params) == 0 || len(dec.Blocks) == 0 {
+		return
+	}
+	flagIdx := -1
+	for i := 0; i < dec.Signature.Results().Len(); i++ {
+		if shortType(dec.Signature.Results().At(i).Type()) == "bool" {
+			flagIdx = i
+		}
+	}
+	if flagIdx < 0 {
+		return
+	}
+	// values used as the index of a local array (the piece counter), closed under phis and +const
+	idx := map[ssa.Value]bool{}
+	for _, b := range dec.Blocks {
+		for _, in := range b.Instrs {
+			if ia, ok := in.(*ssa.IndexAddr); ok {
+				if _, isAlloc := ia.X.(*ssa.Alloc); isAlloc {
+					idx[ia.Index] = true
+				}
+			}
+		}
+	}
+	for changed := true; changed; {
+		changed = false
+		for v := range idx {
+			switch x := v.(type) {
+			case *ssa.Phi:
+				for _, e := range x.Edges {
+					if !idx[e] {
+						if _, isK := e.(*ssa.Const); !isK {
+							idx[e], changed = true, true
+						}
+					}
+				}
+			case *ssa.BinOp:
+				for _, e := range []ssa.Value{x.X, x.Y} {
+					if _, isK := e.(*ssa.Const); !isK && !idx[e] {
+						idx[e], changed = true, true
+					}
+				}
+			}
+		}
+		// and what is computed from an index by +const
+		for _, b := range dec.Blocks {
+			for _, in := range b.Instrs {
+				if bo, ok := in.(*ssa.BinOp); ok && !idx[bo] && (bo.Op == token.ADD || bo.Op == token.SUB) {
+					_, kx := bo.X.(*ssa.Const)
+					_, ky := bo.Y.(*ssa.Const)
+					if (idx[bo.X] && ky) || (idx[bo.Y] && kx) {
+						idx[bo], changed = true, true
+					}
+				}
+			}
+		}
+	}
+	var okOperand func(v ssa.Value, d int) bool
+	okOperand = func(v ssa.Value, d int) bool {
+		if d > 5 {
+			return false
+		}
+		if idx[v] {
+			return true
+		}
+		switch x := v.(type) {
+		case *ssa.Const, *ssa.Parameter:
+			return true
+		case *ssa.Extract:
+			_, isNext := x.Tuple.(*ssa.Next)
+			return isNext
+		case *ssa.Convert:
+			return okOperand(x.X, d+1)
+		case *ssa.ChangeType:
+			return okOperand(x.X, d+1)
+		case *ssa.UnOp:
+			if x.Op == token.NOT {
+				return okOperand(x.X, d+1)
+			}
+			if ia, isIA := x.X.(*ssa.IndexAddr); isIA && x.Op == token.MUL {
+				_, onParam := ia.X.(*ssa.Parameter)
+				return onParam
+			}
+			return false
+		case *ssa.Index:
+			_, onParam := x.X.(*ssa.Parameter)
+			return onParam
+		case *ssa.Lookup:
+			_, onParam := x.X.(*ssa.Parameter)
+			return onParam
+		case *ssa.BinOp:
+			return okOperand(x.X, d+1) && okOperand(x.Y, d+1)
+		case *ssa.Phi:
+			for _, e := range x.Edges {
+				if !okOperand(e, d+1) {
+					return false
+				}
+			}
+			return true
+		case *ssa.Call:
+			name := calleeName(x)
+			if b, isB := x.Call.Value.(*ssa.Builtin); isB && b.Name() == "len" {
+				return okOperand(x.Call.Args[0], d+1)
+			}
+			if strings.HasPrefix(name, "unicode.") || strings.HasPrefix(name, "strings.") {
+				for _, a := range x.Call.Args {
+					if !okOperand(a, d+1) {
+						return false
+					}
+				}
+				return true
+			}
+		}
+		return false
+	}
+	bad, n := "", 0
+	for _, b := range dec.Blocks {
+		ret, isRet := b.Instrs[len(b.Instrs)-1].(*ssa.Return)
+		if !isRet {
+			continue
+		}
+		if bv, isC := constBool(ret.Results[flagIdx]); !isC || bv {
+			continue
+		}
+		n++
+		conds := dominatingConds(b)
+		// ... and the tests of the branches that lead here directly (an `a || b || c` in front of the return)
+		seenB := map[*ssa.BasicBlock]bool{}
+		var preds func(x *ssa.BasicBlock, d int)
+		preds = func(x *ssa.BasicBlock, d int) {
+			if seenB[x] || d > 3 {
+				return
+			}
+			seenB[x] = true
+			for _, pb := range x.Preds {
+				switch t := pb.Instrs[len(pb.Instrs)-1].(type) {
+				case *ssa.If:
+					conds = append(conds, condEdge{Cond: t.Cond, Val: pb.Succs[0] == x})
+				case *ssa.Jump:
+					if len(pb.Instrs) == 1 {
+						preds(pb, d+1)
+					}
+				}
+			}
+		}
+		preds(b, 0)
+		for _, ce := range conds {
+			if !okOperand(ce.Cond, 0) && bad == "" {
+				bad = "the `not valid` answer at " + p.ipos(ret) + " depends on " + canon(ce.Cond)
+				if in, isIn := ce.Cond.(ssa.Instruction); isIn {
+					bad += " (" + p.ipos(in) + ")"
+				}
+			}
+		}
+	}
+	c.Check(bad == "" && n > 0, "FILL", shortName(dec), "a time is invalid only for its characters or a fourth piece", p.pos(dec.Pos()), fmt.Sprintf("the %d `not valid` answers are controlled by tests of the cell, the current character and the piece index only", n), bad+", which is neither the cell, the current character nor the index of the piece: a well-formed time (one-digit hours, more than 24 hours) can be reported as missing, and the fill-in then overwrites it or drops the row")
 }
 
 // fillViaHelper: the fill-in rule is applied by a helper h. Either the two cells (or their column objects) are handed
